@@ -568,7 +568,7 @@ RELAY_RULE = ("world/relay: one history = two real ibctesting chains (v1 UNORDER
               "proof height (every other stored consensus height with the proof rebuilt or kept, heights without a consensus state, above the client's latest, zero, next revision), "
               "ack bytes (flip, append, truncate, empty, another packet's, non-canonical JSON, forged error/result), v2 app-ack list (flip, reverse, truncate, extend, merge two elements, empty element, sentinel error), "
               "signer (another relayer, signer/signature mismatch, malformed address); plus random two-field mutations, replays after the packet was handled, a later packet first (ORDERED: out of order), "
-              "and state variations applied on the executing chain (channel INIT/TRYOPEN/CLOSED/UNINITIALIZED, counterparty port/channel changed, ordering NONE, missing connection, connection INIT/TRYOPEN/UNINITIALIZED, delay period 1ns/20s/1h, missing client, frozen client, recvStartSequence at/above the sequence, v2 counterparty changed, v2 merkle prefix changed, relayer allow-list), and a jump past the trusting period (expired clients). "
+              "and state variations applied on the executing chain (channel INIT/TRYOPEN/CLOSED/UNINITIALIZED, counterparty port/channel changed, ordering NONE, missing connection, connection INIT/TRYOPEN/UNINITIALIZED, delay period 1ns/20s/1h, missing client, frozen client, recvStartSequence at/above the sequence, v2 counterparty changed, v2 merkle prefix changed, relayer allow-list), timeout-boundary probes (v1 height timeout crossed block by block; v1 timestamp and v2 second timeouts probed 1ns before, exactly at and after the timeout, with a corrupted proof so that err:timeout vs err:proof shows the side of the boundary, and the valid message delivered at a random point), and a jump past the trusting period (expired clients). "
               "Facts are read from the executing chain before the transaction; provenValue is read from the counterparty's height-pinned multistore at the version the proof was built from; the verdict is ok (tx ok, state changed) / noop (tx ok, nothing changed) / err:<class from the ABCI codespace+code>. "
               "A case is non-trivial when the transaction did not fail; distinct = distinct canonical request")
 RELAY_TRUSTED = ["HonestClient / ICS-23 soundness: `ProofFacts.proves` DEFINES 'the membership proof verifies' as: the submitted bytes are an uncorrupted proof queried at the message's proof height for exactly the merkle path the handler builds, and the counterparty's store holds exactly the value the handler derives -- CometBFT light-client verification (C24) and ICS-23 (C18 hypotheses) are what make a real client behave like this; the engine confirms it on real 07-tendermint clients and IAVL proofs on every run",
@@ -584,7 +584,7 @@ PROPS.update({
         "rule": RELAY_RULE,
         "trusted": RELAY_TRUSTED,
         "assumptions": ["HonestClient (as a definition: ProofFacts.proves)", "hlen: the hash has 32-byte outputs (SHA-256: Sha256.sha256_length)", "binding statements are in collision-extraction form (no injectivity assumption)"],
-        "level_text": "full for the decision: recv_v1/v2_success_iff and _noop_iff characterise exactly when a receive transaction succeeds / is a NOOP as the explicit conjunction (well-formed signed message, route, channel+connection OPEN and packet from their counterparty [v2: registered counterparty = source client, relayer allowed], own height/time strictly before the timeout, client Active with consensus state at the proof height and delay passed, counterparty store holds CommitPacket(packet) at exactly PacketCommitmentKey(source ids, sequence), not yet received / in order); recv_binds_packet_v1/v2, recv_*_same_proof_same_packet, recv_v1_mutant_rejected: any change of data, timeout, sequence or source identifiers (v2: also destination client and the whole payload list) is rejected unless the counterparty committed exactly that, or a SHA-256 collision is exhibited (uses C07 + C16). Order of checks and error classes are part of the model and replayed against real two-chain executions on every run. The 'a failed receive changes no state' half is proved on the L3 chain model (IbcVerif.C01.noop_or_error_is_identity, chain engine) and monitored here by a store diff (IBC store + application store) around every failed or NOOP transaction. Note (documented behaviour, not a defect): v2 answers an already-received packet NOOP before looking at the proof; v1 only after the proof verified.",
+        "level_text": "full for the decision: recv_v1/v2_success_iff and _noop_iff characterise exactly when a receive transaction succeeds / is a NOOP as the explicit conjunction (well-formed signed message, route, channel+connection OPEN and packet from their counterparty [v2: registered counterparty = source client, relayer allowed], own height/time strictly before the timeout, client Active with consensus state at the proof height and delay passed, counterparty store holds CommitPacket(packet) at exactly PacketCommitmentKey(source ids, sequence), not yet received / in order); recv_v1/v2_unexpired and recv_*_guard_is_world_guard (the guard is literally the receive guard of the C04 two-chain theorems); recv_binds_packet_v1/v2, recv_*_same_proof_same_packet, recv_v1_mutant_rejected, recv_v2_mutant_not_received: any change of data, timeout, sequence or source identifiers (v2: also destination client and the whole payload list) is rejected unless the counterparty committed exactly that, or a SHA-256 collision is exhibited (uses C07 + C16). Order of checks and error classes are part of the model and replayed against real two-chain executions on every run. The 'a failed receive changes no state' half is proved on the L3 chain model (IbcVerif.C01.noop_or_error_is_identity, chain engine) and monitored here by a store diff (IBC store + application store) around every failed or NOOP transaction. Note (documented behaviour, not a defect): v2 answers an already-received packet NOOP before looking at the proof; v1 only after the proof verified.",
     },
     "C06": {
         "lean": ["IbcVerif.Props.C06"],
